@@ -44,7 +44,7 @@ func main() {
 		run.Set("rule", "Rule structs (lists/actions incl. invalid x 40 filters incl. invalid x syscall strings across and beyond 0..2047 and 2^32/2^63, filter counts to 200, over-long keys/paths, all AccessType values, foreign and nil rules); byte slices (every prefix of 13 valid rules; every header word x 26 boundary values; pairs of 15 structural words x 16 values); rule lines (all token sequences <=3/4 over 43 tokens incl. unbalanced quotes, NUL, 64 KiB token). Oracle: value xor error, no panic/hang/OOM, allocation <= 1 MiB + 64 x input, ToCommandLine success => structurally valid per the independent decoder. non-trivial = case that returned normally and met every clause")
 	case "C14":
 		run = ev.Begin("C14", *tier, "exploration")
-		enumx.Run(run, "C14", []string{"c14-lines", "c14-paths", "c14-syntax", "c14-runes", "c14-fvalues", "c14-environment", "c14-addpairs", "c14-requoting", "c14-amounts"}, *tier, 32, true)
+		enumx.Run(run, "C14", []string{"c14-lines", "c14-paths", "c14-syntax", "c14-runes", "c14-fvalues", "c14-environment", "c14-addpairs", "c14-requoting", "c14-amounts", "c14-specialwords"}, *tier, 32, true)
 		run.Set("rule", "all sequences of <=3 (quick) / <=4 (thorough) flag groups in any order over a 45-group menu (valid and invalid -a/-A/-F/-C/-S/-k/-p/-w values incl. spaces, '=' signs, leading junk; -D; stray words; --), shell-quoted by the harness; a 60-line reference reader of the token list yields MustReject or the Expected rule. non-trivial = accepted line equal to Expected")
 	default:
 		fmt.Println("ERROR unknown property", *prop)
